@@ -36,11 +36,11 @@ type Op struct {
 	Eng         Eng           `json:"eng,omitempty"`
 	Faults      []store.Fault `json:"faults,omitempty"`
 	// cancellation by another client task
-	ClientCancelStep int   `json:"client_cancel_step,omitempty"` // >0: Cancel() issued by a second task once the scheduler reached this step
-	ClientClose      bool  `json:"client_close,omitempty"`       // use Close() instead of Cancel()
-	DeadlineMs       int64 `json:"deadline_ms,omitempty"`        // Exec context deadline, fake time
+	ClientCancelStep int           `json:"client_cancel_step,omitempty"` // >0: Cancel() issued by a second task once the scheduler reached this step
+	ClientClose      bool          `json:"client_close,omitempty"`       // use Close() instead of Cancel()
+	DeadlineMs       int64         `json:"deadline_ms,omitempty"`        // Exec context deadline, fake time
 	Append           *store.Series `json:"append,omitempty"`
-	WrapMode         int   `json:"wrap_mode,omitempty"` // 0 passive, 1 Series() before first Next, 2 probe after end, 3 both
+	WrapMode         int           `json:"wrap_mode,omitempty"` // 0 passive, 1 Series() before first Next, 2 probe after end, 3 both
 }
 
 // Case is a complete, self-contained simulated execution: running it is a pure function of this
